@@ -291,3 +291,42 @@ func VH_C09_agg_op() {
 	}
 	vrt.Reach("end")
 }
+
+// VH_C09_json_parser: the in-process parameterless `| json` stage over valid JSON object lines of nesting
+// depth 1-3 with symbolic leaf text, a numeric leaf, an array (skipped) and a key that needs sanitising:
+// every scalar leaf becomes the label named by the underscore-joined path from the root (sanitised), with
+// the leaf text as value; labels the entry already had are kept; the series id is the hash of the final set.
+func VH_C09_json_parser() {
+	vrt.CheckLeaks()
+	vrt.Unwind(4000)
+	vrt.ConcreteUnwind(400000)
+	leaf := vrt.Byte("leaf-byte")
+	vrt.Assume(leaf >= 0x20 && leaf < 0x7f && leaf != '"' && leaf != '\\')
+	ls := string([]byte{leaf})
+	depth := 1 + vrt.Choice("nesting-depth", 3)
+	var line, wantKey string
+	switch depth {
+	case 1:
+		line, wantKey = `{"req":"`+ls+`"`, "req"
+	case 2:
+		line, wantKey = `{"req":{"hdr":"`+ls+`"}`, "req_hdr"
+	default:
+		line, wantKey = `{"req":{"hdr":{"host":"`+ls+`"}}`, "req_hdr_host"
+	}
+	withExtras := vrt.Bool("numeric-array-and-dashed-key")
+	if withExtras {
+		line += `,"n":42,"arr":[1,{"z":"q"}],"x-y":{"k.v":"w"}`
+	}
+	line += `}`
+	src := vwSource{[]shared.LogEntry{{Message: line, Labels: map[string]string{"app": "x"}, TimestampNS: 5}}}
+	got := vgRun(&ParserPlanner{GenericPlanner: GenericPlanner{src}, Op: "json"})
+	vrt.Assert(len(got) == 1 && got[0].TimestampNS == 5, "line-kept")
+	want := map[string]string{"app": "x", wantKey: ls}
+	if withExtras {
+		want["n"] = "42"
+		want["x_y_k_v"] = "w"
+	}
+	vrt.Assert(vwSameSet(got[0].Labels, want), "labels-are-the-underscore-joined-paths-of-the-scalar-leaves")
+	vrt.Assert(got[0].Fingerprint == fingerprint(want), "series-id-of-the-final-label-set")
+	vrt.Reach("end")
+}
